@@ -27,10 +27,11 @@ Record sstate := mkS {
   s_heap : list (list value);          (* slices *)
   s_funcs : list (bytes * fn);
   s_files : list (bytes * list bytes); (* path -> lines (write/read/exists) *)
-  s_out : bytes                        (* standard output so far *)
+  s_out : bytes;                       (* standard output so far *)
+  s_stdin : list bytes                 (* lines still to be read by input() *)
 }.
 
-Definition s_init : sstate := mkS [] [] [] [] [] [].
+Definition s_init : sstate := mkS [] [] [] [] [] [] [].
 
 Inductive res (A : Type) :=
 | Done (a : A) (s : sstate)
@@ -58,8 +59,8 @@ Definition read_var (x : var) : R value :=
 
 Definition write_var (x : var) (v : value) : R unit :=
   fun s => if v_global x
-           then Done tt (mkS (eset (v_name x) v (s_globals s)) (s_frame s) (s_heap s) (s_funcs s) (s_files s) (s_out s))
-           else Done tt (mkS (s_globals s) (eset (v_name x) v (s_frame s)) (s_heap s) (s_funcs s) (s_files s) (s_out s)).
+           then Done tt (mkS (eset (v_name x) v (s_globals s)) (s_frame s) (s_heap s) (s_funcs s) (s_files s) (s_out s) (s_stdin s))
+           else Done tt (mkS (s_globals s) (eset (v_name x) v (s_frame s)) (s_heap s) (s_funcs s) (s_files s) (s_out s) (s_stdin s)).
 
 Definition text_of (v : value) : option bytes :=
   match v with
@@ -99,13 +100,13 @@ Definition slice_store (l : list value) (n : nat) (v zero : value) : list value 
   if (n <? length l)%nat then replace_nth n v l else l ++ repeat zero (n - length l) ++ [v].
 
 Definition set_slice (id : nat) (l : list value) : R unit :=
-  fun s => Done tt (mkS (s_globals s) (s_frame s) (replace_nth id l (s_heap s)) (s_funcs s) (s_files s) (s_out s)).
+  fun s => Done tt (mkS (s_globals s) (s_frame s) (replace_nth id l (s_heap s)) (s_funcs s) (s_files s) (s_out s) (s_stdin s)).
 
 Definition new_slice (l : list value) : R value :=
-  fun s => Done (VSlice (length (s_heap s))) (mkS (s_globals s) (s_frame s) (s_heap s ++ [l]) (s_funcs s) (s_files s) (s_out s)).
+  fun s => Done (VSlice (length (s_heap s))) (mkS (s_globals s) (s_frame s) (s_heap s ++ [l]) (s_funcs s) (s_files s) (s_out s) (s_stdin s)).
 
 Definition emit_line (t : bytes) : R unit :=
-  fun s => Done tt (mkS (s_globals s) (s_frame s) (s_heap s) (s_funcs s) (s_files s) (s_out s ++ t ++ [10%N])).
+  fun s => Done tt (mkS (s_globals s) (s_frame s) (s_heap s) (s_funcs s) (s_files s) (s_out s ++ t ++ [10%N]) (s_stdin s)).
 
 Definition arith (op : binop) (a b : Z) : option Z :=
   match op with
@@ -182,9 +183,9 @@ Section Run.
                    if negb (Nat.eqb (length (fn_params fd)) (length vs)) then Undef else
                    let caller := s_frame s in
                    let callee := fold_left (fun e pv => eset (v_name (fst pv)) (snd pv) e) (combine (fn_params fd) vs) [] in
-                   match exec_block f (fn_body fd) (mkS (s_globals s) callee (s_heap s) (s_funcs s) (s_files s) (s_out s)) with
+                   match exec_block f (fn_body fd) (mkS (s_globals s) callee (s_heap s) (s_funcs s) (s_files s) (s_out s) (s_stdin s)) with
                    | Done sig s' =>
-                       let back := mkS (s_globals s') caller (s_heap s') (s_funcs s') (s_files s') (s_out s') in
+                       let back := mkS (s_globals s') caller (s_heap s') (s_funcs s') (s_files s') (s_out s') (s_stdin s') in
                        match sig with
                        | SigRet rv => if Nat.eqb (length rv) (length rets) then Done (map Imm rv) back else Undef
                        | SigNext => match rets with [] => Done [] back | _ => Undef end
@@ -226,7 +227,13 @@ Section Run.
             | VSlice id => l <- get_slice id ;; rret [Imm (VInt (Z.of_nat (length l)))]
             | _ => undef
             end
-        | EInput _ => undef
+        | EInput p =>
+            (* the prompt is evaluated first (it goes to the terminal only); then one line is consumed; end of input gives "" *)
+            (match p with Some x => o <- ev1 x ;; force o ;;; rret tt | None => rret tt end) ;;;
+            (fun s => match s_stdin s with
+                      | [] => Done [Imm (VStr [])] s
+                      | l :: r => Done [Imm (VStr l)] (mkS (s_globals s) (s_frame s) (s_heap s) (s_funcs s) (s_files s) (s_out s) r)
+                      end)
         | ECopy dst src =>
             os <- ev1 src ;; vs <- force os ;; vd <- read_var dst ;;
             match vd, vs with
@@ -291,7 +298,7 @@ Section Run.
             | _, _ => undef
             end
         | SFunc name _ params body _ =>
-            (fun s => Done SigNext (mkS (s_globals s) (s_frame s) (s_heap s) ((name, mkFn params body) :: s_funcs s) (s_files s) (s_out s)))
+            (fun s => Done SigNext (mkS (s_globals s) (s_frame s) (s_heap s) ((name, mkFn params body) :: s_funcs s) (s_files s) (s_out s) (s_stdin s)))
         | SReturn vals =>
             vs <- assign_many [] vals ;; rret (SigRet vs)
         | SIf branches els =>
@@ -349,7 +356,7 @@ Section Run.
                 (fun s =>
                    let old := match eget_file path (s_files s) with Some l => l | None => [] end in
                    Done SigNext (mkS (s_globals s) (s_frame s) (s_heap s) (s_funcs s)
-                                     (eset_file path (if app then old ++ [data] else [data]) (s_files s)) (s_out s)))
+                                     (eset_file path (if app then old ++ [data] else [data]) (s_files s)) (s_out s) (s_stdin s)))
             | _, _, _ => undef
             end
         | SExpr x => eval f x ;;; rret SigNext
@@ -370,8 +377,8 @@ End Run.
 (* a whole program: standard output and exit status; None = undefined behaviour or fuel exhausted *)
 Inductive run_result := Ran (out : bytes) (status : Z) (files : list (bytes * list bytes)) | RunUndef | RunNoFuel.
 
-Definition run (fuel : nat) (files : list (bytes * list bytes)) (body : list stmt) : run_result :=
-  match exec_block fuel body (mkS [] [] [] [] files []) with
+Definition run (fuel : nat) (files : list (bytes * list bytes)) (stdin : list bytes) (body : list stmt) : run_result :=
+  match exec_block fuel body (mkS [] [] [] [] files [] stdin) with
   | Done _ s => Ran (s_out s) 0 (s_files s)
   | Exited c s => Ran (s_out s) c (s_files s)
   | Undef => RunUndef
